@@ -21,7 +21,7 @@ import gen_c12  # noqa: E402
 def rlibs():
     """The generic_array rlib as built from /repo's working tree by the aux harness build."""
     props2.build_aux()
-    deps = os.path.join(props2.AUX, "target", "debug", "deps")
+    deps = os.path.join(props2.AUX, "target-alt" if vlib.ALT else "target", "debug", "deps")
     c = sorted(glob.glob(os.path.join(deps, "libgeneric_array-*.rlib")), key=os.path.getmtime)
     if not c:
         raise ToolError("no generic_array rlib under " + deps)
